@@ -319,6 +319,29 @@ func judge(r *mon.Rec, fam string, wire, next []byte, rng *rand.Rand, onlyPatter
 		r.Violate("C08:output-alias:ToBytes", "writing into earlier results of ToBytes changes a later encoding", rp)
 		return
 	}
+	// ... and while the message itself is changed and encoded again (a retransmission with another elapsed time, a
+	// template filled in for the next client): a per-message output buffer would show here
+	flip := func() {
+		switch x := v.(type) {
+		case *dhcpv4.DHCPv4:
+			x.NumSeconds ^= 0x0101
+			x.HopCount ^= 1
+		case *dhcpv6.Message:
+			x.TransactionID[0] ^= 0x81
+		case *dhcpv6.RelayMessage:
+			x.HopCount ^= 1
+		}
+	}
+	held := encode(v)
+	heldKeep := append([]byte{}, held...)
+	flip()
+	_ = encode(v)
+	flip()
+	if !bytes.Equal(held, heldKeep) {
+		rp.Pattern = "modify-and-encode-again"
+		r.Violate("C08:output-reused:ToBytes", "the bytes returned by ToBytes changed when the message was modified and encoded again", rp)
+		return
+	}
 	r.Count("live_encodings_compared", 1)
 	// shape
 	shape := fam
